@@ -238,7 +238,7 @@ def replay(job, viol, exe=None):
     rundir = os.path.join(d, "run_" + h)
     os.makedirs(rundir, exist_ok=True)
     env = dict(os.environ, SYMX_INPUTS=inp, ASAN_OPTIONS="detect_leaks=0:halt_on_error=1:abort_on_error=0", UBSAN_OPTIONS="print_stacktrace=0:halt_on_error=0")
-    rc, out, wall = run([exe], timeout=20, cwd=rundir, env=env)
+    rc, out, wall = run([exe], timeout=10 if viol["kind"] == "budget" else 30, cwd=rundir, env=env)
     shutil.rmtree(rundir, ignore_errors=True)
     k = viol["kind"]
     rep = False
